@@ -120,6 +120,26 @@ def run(tier, rep):
         for p in pub:
             if not any(p.startswith(l) for l in lits):
                 rep.violation('accept:%s:%s:no-dispatch' % (cat, p), "published %s name '%s' matches no dispatch entry" % (cat, p))
+    # (1c) the set of accepted names does not depend on what the working block was used for before: every published background
+    # name is initialised and explored (layer A, against the model) on a block that has just served a double-beta session
+    # (quadruple beta, a Majoron mode with an energy window, a double K capture), without a reset in between
+    import dxlib
+    pres = ['dbd Nd150 0 20 -1 -1', 'dbd Mo100 0 5 0.5 2.5', 'dbd Cd106 0 12 -1 -1'] if tier != 'quick' else ['dbd Nd150 0 20 -1 -1', 'dbd Cd106 0 12 -1 -1']
+    hist = ['bkg %s 0 0 -1 -1 PRE %s' % (n, p) for n in ls_bkg for p in pres]
+    hres, hd = dxlib.run_dx('plain', hist, 'c05h', 'A', 'ref', deadline=300)
+    hexecs = 0
+    for hr in hres:
+        if 'crashed' in hr:
+            rep.violation('after-session:%s:crash' % hr['key'], "'%s' dies (%s)" % (hr['key'], hr['crashed']))
+            continue
+        hexecs += hr['executions']
+        if hr['port_err'] != 0:
+            rep.violation('after-session:%s:refused' % hr['key'], "published background name refused on a working block that served a double-beta session before: %s (error %s %s)" % (hr['key'], hr['port_err'], hr.get('port_init_what', '')))
+        for v in hr['violations']:
+            if v['oracle'] == 'ref' and hr.get('ref_ier') == 0:
+                rep.violation('after-session:%s:%s' % (hr['key'], dxlib.why_class(v['why'])), '%s: %s (forced=%s)' % (hr['key'], v['why'], v['forced']), dxlib.replay_text(hr, v, 'genbbsub'))
+    evals += hexecs
+    rep.coverage['names_after_a_double_beta_session'] = len(hres)
     # (2)+(3) own scheme, same deviates
     nph = 2 if tier == 'quick' else 8
     r = subprocess.run([exe, 'scheme', str(nph)] + (['deep'] if tier != 'quick' else []), stdout=subprocess.PIPE, stderr=subprocess.PIPE, text=True, timeout=3000)
@@ -158,5 +178,9 @@ def run(tier, rep):
 
 
 def replay(path):
-    print(open(path).read())
+    txt = open(path).read()
+    if txt.split('\n')[0].split()[:1] in (['bkg'], ['dbd']):
+        import dxlib
+        return dxlib.replay(path)
+    print(txt)
     return 1
